@@ -99,4 +99,133 @@ theorem kindsFrom_skip (cs : List Char) (n : Nat) (hne : cs ≠ []) (h : lexOne 
     simp only [skip, List.nil_append]
     rw [Nat.max_eq_left hn]
 
+-- ------------------------------------------------------------ a step never reads past the input
+
+theorem lineCommentLen_le (cs : List Char) : lineCommentLen cs ≤ cs.length := by
+  induction cs with
+  | nil => simp [lineCommentLen]
+  | cons c r ih => simp only [lineCommentLen, List.length_cons]; split <;> omega
+
+theorem scanDelim_lt (q : Char) : ∀ (n : Nat) (cs : List Char), cs.length ≤ n → ∀ k, scanDelim [q] cs = some k → k < cs.length := by
+  intro n
+  induction n with
+  | zero => intro cs h k hk; cases cs with
+    | nil => simp [scanDelim] at hk
+    | cons _ _ => simp at h
+  | succ n ih =>
+    intro cs h k hk
+    cases cs with
+    | nil => simp [scanDelim] at hk
+    | cons c r =>
+      rw [scanDelim.eq_def] at hk
+      simp only at hk
+      split at hk
+      · cases r with
+        | nil => simp at hk
+        | cons c2 r2 =>
+          simp only [Option.map_eq_some_iff] at hk
+          obtain ⟨k', hk', rfl⟩ := hk
+          have := ih r2 (by simp at h ⊢; omega) k' hk'
+          simp; omega
+      · split at hk
+        · cases hk; simp
+        · simp only [Option.map_eq_some_iff] at hk
+          obtain ⟨k', hk', rfl⟩ := hk
+          have := ih r (by simp at h ⊢; omega) k' hk'
+          simp; omega
+
+theorem takeWhile_len_le (p : Char → Bool) (cs : List Char) : (cs.takeWhile p).length ≤ cs.length := by
+  induction cs with
+  | nil => simp
+  | cons c r ih => simp only [List.takeWhile]; split <;> simp <;> omega
+
+theorem lexNum_len_le (cs : List Char) : (lexNum cs).2 ≤ cs.length := by
+  unfold lexNum
+  simp only
+  have h1 := takeWhile_len_le isNumChar cs
+  split
+  · rename_i rest' heq
+    have h2 := takeWhile_len_le isNumChar rest'
+    have : (cs.drop (cs.takeWhile isNumChar).length).length = rest'.length + 1 := by rw [heq]; simp
+    simp only [List.length_drop] at this
+    simp only; omega
+  · simp only; omega
+
+
+theorem startsTriple_len {cs : List Char} (h : startsTriple cs = true) : 3 ≤ cs.length := by
+  unfold startsTriple at h
+  split at h
+  · simp
+  · cases h
+
+theorem lexQuoted_len_le (q : Char) (rest : List Char) : (lexQuoted q rest).2.1 ≤ rest.length + 1 := by
+  unfold lexQuoted
+  split
+  · rename_i k hk
+    have := scanDelim_lt q rest.length rest (Nat.le_refl _) k hk
+    simp only; omega
+  · simp only; omega
+
+theorem lexTriple_len_le (afterOpen : List Char) : (lexTriple afterOpen).2.1 ≤ afterOpen.length := by
+  unfold lexTriple
+  simp only
+  omega
+
+theorem lexOne_len_le (c : Char) (rest : List Char) : (lexOne (c :: rest)).len ≤ rest.length + 1 := by
+  rw [lexOne]
+  by_cases hid : isIdentStart c = true
+  · simp only [hid, if_true]
+    have := takeWhile_len_le isIdentMid rest
+    split
+    · simp [punct]
+    · split
+      · simp only [punct, List.length_cons]; omega
+      · split <;> (simp only [punct, List.length_cons]; omega)
+  · simp only [hid, Bool.false_eq_true, if_false]
+    by_cases hd : isDigit c = true
+    · simp only [hd, if_true]
+      have := lexNum_len_le (c :: rest)
+      simp only [punct, List.length_cons] at this ⊢
+      exact this
+    · simp only [hd, Bool.false_eq_true, if_false]
+      have hq := lexQuoted_len_le '"' rest
+      have hs := lexQuoted_len_le '\'' rest
+      have ht : (lexTriple (rest.drop 2)).2.1 ≤ rest.length - 2 := by
+        have := lexTriple_len_le (rest.drop 2); simpa using this
+      have hl := lineCommentLen_le rest
+      have hdl : (rest.drop 2).length = rest.length - 2 := by simp
+      have hnext : ∀ x, rest.head? = some x → 1 ≤ rest.length := by
+        intro x hx; cases rest <;> simp at hx ⊢
+      split
+      all_goals (try (simp only [punct, skip]; omega))
+      all_goals (try (split <;> simp only [punct, skip] <;> first | omega | (have := hnext _ ‹_›; omega)))
+      · -- `-`
+        split
+        · rename_i h; have := hnext _ h; simp only [punct]; omega
+        · split
+          · rename_i h; have := hnext _ h; simp only [punct]; omega
+          · simp only [punct]; omega
+      · -- `"`
+        split
+        · rename_i h
+          have := startsTriple_len h
+          simp only [List.length_cons] at this
+          show (lexTriple (rest.drop 2)).2.1 + 3 ≤ rest.length + 1
+          omega
+        · simp only; omega
+      · -- `/`
+        split
+        · simp only [skip]; omega
+        · split
+          · simp only [skip]; omega
+          · split
+            · rename_i h; have := hnext _ h; simp only [punct]; omega
+            · simp only [punct]; omega
+
+theorem stepLen_le (c : Char) (rest : List Char) : stepLen (c :: rest) ≤ (c :: rest).length := by
+  have := lexOne_len_le c rest
+  simp only [stepLen, List.length_cons]; omega
+
+theorem stepLen_pos (cs : List Char) : 1 ≤ stepLen cs := by simp only [stepLen]; omega
+
 end Abra.Lex
